@@ -124,7 +124,7 @@ pub fn build_command(root: &Path, cfg: &Config) -> MosResult<()> {
 
     if cfg.build.output_format(&generated_code) == OutputFormat::Prg {
         // Add the two-byte PRG header as a first bank
-        let mut new_banks = vec![Bank::prg_header(banks[0].range().start)];
+        let mut new_banks = vec![Bank::prg_header(&banks[0])];
         new_banks.extend(banks);
         banks = new_banks;
     }
